@@ -171,6 +171,8 @@ func main() {
 		switch t[0] {
 		case "IOP":
 			fmt.Fprintln(w, iop(t[1:]))
+		case "FPS":
+			fmt.Fprintln(w, fps(t[1:]))
 		case "ARRH":
 			// ARRH <all|six> op ; op ; ...
 			var ops []opT
